@@ -471,4 +471,24 @@ Proof.
   - intros [Ho Hal]. apply kstep_progress; assumption.
 Qed.
 
+(** the invariant carries [1 <= term c] (from [kinit], whose precondition it is): slot id 0 is a
+    terminal's, and the id of every new node lies in the slot array behind the terminal slots *)
+Lemma kinv_term c s : KInv c s -> (1 <= term c)%N.
+Proof. intros ((HA & _) & _). apply (ainv_term c _ HA). Qed.
+
+Theorem knew_id_in_array c s tid lvl ch s' id rs : KInv c s ->
+  kstep c s (KGoi tid lvl ch) = Some (s', KRNew id, rs) ->
+  (1 <= term c /\ term c <= Npos id < term c + cap c)%N.
+Proof.
+  intros HK H. split; [apply (kinv_term c s HK)|]. destruct HK as ((HA & _) & _).
+  destruct (goi_parts k terms nl _ _ _ _ _ _ _ _ H) as (hts & tok1 & _ & _ & M).
+  destruct (find_shape (k_cn s) lvl ch); [discriminate M|]. destruct M as (x & -> & Hi & M).
+  destruct x as [[|fr] pa|lk| | | | | |]; try contradiction; try (destruct M; discriminate).
+  destruct M as (E & _). inversion E; subst fr. cbn [istep] in Hi.
+  destruct (_ && _ && _ && _ && _); [|discriminate].
+  destruct (Alloc.step c good (i_al (k_i s)) (AAlloc tid)) as [[al' [| |[fr|] pa'| | |]]|] eqn:Hal; try discriminate.
+  - inversion Hi; subst. destruct (alloc_safe _ _ _ _ _ _ HA Hal) as (Hr & _). exact Hr.
+  - destruct (release_all _ hts) as [[? ?]|]; discriminate.
+Qed.
+
 End Total.
